@@ -53,9 +53,8 @@ func harnessDir(dir string) string {
 var registry = []propertySpec{
 	{
 		ID:    "SMOKE",
-		Files: map[string][]string{"html": {"zz_verif_smoke.go"}, "q": {"zz_verif_smoke.go"}},
+		Files: map[string][]string{"q": {"zz_verif_smoke.go"}},
 		Harnesses: []harnessSpec{
-			{Name: "VerifSmoke_Publish", Pkg: "html", Quick: tierSpec{Cases: 1}, Thorough: tierSpec{Cases: 1}, Sched: -1, Bounds: "engine smoke test"},
 			{Name: "VerifSmoke_Query", Pkg: "q", Quick: tierSpec{Cases: 11}, Thorough: tierSpec{Cases: 11}, Sched: -1, Bounds: "engine smoke test"},
 		},
 	},
@@ -147,10 +146,10 @@ var registry = []propertySpec{
 				Bounds: "JaroWinkler on every pair of byte strings (all 256 byte values) of lengths 0..5 x 0..5 (thorough 0..7 x 0..7), prefix size symbolic 0..10, boost threshold 0 or 0.7"},
 			{Name: "VerifC12_String", Quick: tierSpec{Cases: 16}, Thorough: tierSpec{Cases: 16}, Sched: -1,
 				Bounds: "StringSimilarity on printable ASCII strings of lengths 0..3 x 0..3"},
-			{Name: "VerifC12_Date", Quick: tierSpec{Cases: 18}, Thorough: tierSpec{Cases: 18}, Sched: -1,
-				Bounds: "two symbolic valid dates (years 1..9999, 9 granularity pairs), maxYears = 3 and symbolic in [0.001, 1000]"},
-			{Name: "VerifC12_DateMonotone", Quick: tierSpec{Cases: 9}, Thorough: tierSpec{Cases: 9}, Sched: -1,
-				Bounds: "three symbolic dates, maxYears = 3"},
+			{Name: "VerifC12_Date", Quick: tierSpec{Cases: 5}, Thorough: tierSpec{Cases: 18}, Sched: -1, Solver: "cvc5", Timeout: 60000,
+				Bounds: "two symbolic valid dates (years 1..9999); quick: granularity pairs year/year, month/month, day/day, year/day with maxYears = 3 and year/year with symbolic maxYears in [0.001, 1000]; thorough: all 9 pairs x both"},
+			{Name: "VerifC12_DateMonotone", Quick: tierSpec{Cases: 2}, Thorough: tierSpec{Cases: 9}, Sched: -1, Solver: "cvc5", Timeout: 60000,
+				Bounds: "three symbolic dates, maxYears = 3; quick: 2 of the 9 granularity pairs, thorough: all"},
 			{Name: "VerifC12_Weighted", Quick: tierSpec{Cases: 2}, Thorough: tierSpec{Cases: 2}, Sched: -1,
 				Bounds: "four symbolic component scores in [0,1]; default weights and symbolic non-negative weights summing to 1"},
 			{Name: "VerifC12_Individual", Quick: tierSpec{Cases: 81}, Thorough: tierSpec{Cases: 81}, Sched: -1,
@@ -163,11 +162,51 @@ var registry = []propertySpec{
 		ID:    "C13",
 		Files: map[string][]string{"": {"zz_verif_lib.go", "zz_verif_c13.go"}},
 		Harnesses: []harnessSpec{
-			{Name: "VerifC13_History", Quick: tierSpec{Cases: 2}, Thorough: tierSpec{Cases: 2}, Sched: -1,
+			{Name: "VerifC13_History", Quick: tierSpec{Cases: 2, Split: 1}, Thorough: tierSpec{Cases: 2, Split: 1}, Sched: -1,
 				Bounds: "every history of 1 and 2 operations over 13 edits (AddNode, DeleteNode, SetNodes, AddIndividual new/clashing pointer, AddFamily, Set/Clear Husband/Wife, AddChild, Document.DeleteNode of a family / an individual) and 7 reads (views, Warnings, String, Compare, SurroundingSimilarity, CompareNodes+Sort, DeepCopy into another document) on a 3-person family; views read twice so that caches are warm"},
 		},
 		Assumptions: []string{"relation views that crash on dangling references are rendered as PANIC on both sides (crashes are C14's subject)"},
 		Outside:     "histories longer than 2 (thorough: 3) operations, publish and query as reads (their purity is asserted in the C14/C15 harnesses), other documents",
+	},
+	{
+		ID:    "C14",
+		Files: map[string][]string{"": {"zz_verif_lib.go", "zz_verif_c14.go"}, "html": {"zz_verif_html_lib.go", "zz_verif_c14.go"}},
+		Harnesses: []harnessSpec{
+			{Name: "VerifC14_Publish", Pkg: "html", Quick: tierSpec{Cases: 18}, Thorough: tierSpec{Cases: 18}, Sched: -1,
+				Bounds: "publish (all page groups, one job) in show / hide / placeholder mode on 6 decodable files: well-formed, dangling and wrong-kind references with empty values, missing and odd names, a living person who is their own parent and spouse, duplicate pointers with unparsable dates, empty file"},
+			{Name: "VerifC14_Library", Quick: tierSpec{Cases: 6}, Thorough: tierSpec{Cases: 6}, Sched: -1,
+				Bounds: "a 3-person / 2-family / 1-source file in which one of the five reference values (FAMS, FAMC, HUSB, WIFE, CHIL) is 0..4 symbolic bytes over {@,I,F,1,2,x}; 7 NAME forms and 7 DATE forms by choice; warnings, an accessor sweep over individuals, families, names, sources, places, similarity and node diff"},
+			{Name: "VerifC14_Compare", Quick: tierSpec{Cases: 6}, Thorough: tierSpec{Cases: 6}, Sched: -1,
+				Bounds: "the same files through IndividualNodes.Compare (goroutine pipeline, deterministic scheduler)"},
+		},
+		Assumptions: []string{"the commands are represented by the library calls they make (flag/os/log are outside the engine)"},
+		Outside:     "process-level behaviour (exit status, stderr), publish and query (exercised in the C17-C19 and C15 harnesses), files beyond the template, more than one hostile reference at a time",
+	},
+	{
+		ID:    "C19",
+		Files: map[string][]string{"html": {"zz_verif_html_lib.go", "zz_verif_c19.go"}},
+		Harnesses: []harnessSpec{
+			{Name: "VerifC19_Names", Pkg: "html", Quick: tierSpec{Cases: 6}, Thorough: tierSpec{Cases: 6}, Sched: -1,
+				Bounds: "a 2-person document plus one hostile element: 2 symbolic bytes (0x21-0x7e) in a source pointer, an individual pointer, a surname or a place name; two people whose names collapse to one key; places named like fixed pages; all page groups, show mode"},
+			{Name: "VerifC19_Determinism", Pkg: "html", Quick: tierSpec{Cases: 6}, Thorough: tierSpec{Cases: 6}, Sched: -1, MapOrder: true, Invariant: []string{"site"},
+				Bounds: "a 4-person / 1-family / 1-source document in 3 visibility modes x jobs 1,2, preceded or not by publishing another document in the same execution, under four map iteration policies applied to every map range (insertion order, reversed, rotated, adjacent pairs swapped) with the deterministic goroutine scheduler"},
+			{Name: "VerifC19_Faults", Pkg: "html", Quick: tierSpec{Cases: 2}, Thorough: tierSpec{Cases: 2}, Sched: -1,
+				Bounds: "file writer failing at the k-th file for every k, jobs 1 and 2"},
+		},
+		Assumptions: []string{"goroutines are scheduled cooperatively (run until blocked, lowest id first): interleavings at arbitrary instructions and the Go memory model are outside the engine"},
+		Outside:     "data races and real thread schedules, jobs > 2, DirectoryFileWriter and the file system, documents beyond the templates",
+	},
+	{
+		ID:    "C18",
+		Files: map[string][]string{"html": {"zz_verif_html_lib.go", "zz_verif_c18.go"}},
+		Harnesses: []harnessSpec{
+			{Name: "VerifC18_Publish", Pkg: "html", Quick: tierSpec{Cases: 12}, Thorough: tierSpec{Cases: 12}, Sched: -1,
+				Bounds: "a 3-person / 1-family / 1-source document in which one of 12 value kinds (given name, surname, place, date phrase, note, source title, source property, event value, individual pointer, sex, name type, second name) carries the token Ta<c>nt with c any printable ASCII byte (symbolic); all page groups, show mode; every output byte that depends on c must provably not be one of < > \" ' &"},
+			{Name: "VerifC18_Diff", Pkg: "html", Quick: tierSpec{Cases: 5}, Thorough: tierSpec{Cases: 5}, Sched: -1,
+				Bounds: "the html diff report of the tainted document against the clean one for 5 value kinds"},
+		},
+		Assumptions: []string{"one tainted byte at a time; html.EscapeString is modelled byte-wise (validated against the real function)"},
+		Outside:     "JavaScript / URL contexts (location.href is checked as an attribute only), multi-byte sequences forming an entity, two tainted values at once, html query output (C15 harness), well-nestedness tokenising",
 	},
 	{
 		ID:    "C04",
